@@ -102,7 +102,18 @@ func runC12(c *runCtx) {
 		for _, s := range segs {
 			parts = append(parts, s.text)
 		}
-		script := strings.Join(parts, " ;\n") + " ;"
+		// empty statements (a doubled or leading semicolon) stand between the statements now and then: they yield nothing
+		script := ""
+		if c.rng.Chance(15) {
+			script = "; "
+		}
+		for i, p := range parts {
+			script += p
+			if i < len(parts)-1 {
+				script += c.rng.Pick([]string{" ;\n", " ;\n", " ;\n", " ;;\n", "; ;\n", " ; ; ;\n"})
+			}
+		}
+		script += c.rng.Pick([]string{" ;", " ;", " ;;"})
 		conv := convOf(script)
 		if conv == nil {
 			res.stat("script-lex-error")
@@ -113,7 +124,9 @@ func runC12(c *runCtx) {
 		start := 0
 		for i, t := range conv {
 			if t.Type == models.TokenTypeSemicolon {
-				bounds = append(bounds, [2]int{start, i})
+				if i > start { // an empty statement has no segment
+					bounds = append(bounds, [2]int{start, i})
+				}
 				start = i + 1
 			}
 		}
@@ -154,6 +167,14 @@ func runC12(c *runCtx) {
 			if len(stmts) > want {
 				res.fail("recovery-partial-statement", "a malformed statement whose prefix is a complete statement contributes a tree (for the prefix) to the recovery result",
 					map[string]any{"script": script}, map[string]any{"trees": len(stmts), "well_formed": want})
+			}
+			// … but the malformed statement is still reported, once, and strict parsing still agrees on "there is an error"
+			nBadP := len(segs) - want
+			if len(errs) != nBadP {
+				res.fail("recovery-error-count", fmt.Sprintf("recovery reports %d errors for %d malformed statements", len(errs), nBadP), map[string]any{"script": script}, nil)
+			}
+			if _, perr := parser.NewParser().Parse(conv); (perr != nil) != (len(errs) > 0) {
+				res.fail("recovery-iff", "recovery reports an error iff strict parsing fails — violated", map[string]any{"script": script}, fmt.Sprint(perr))
 			}
 			continue
 		}
